@@ -135,6 +135,7 @@ def asts(tier):
             funs.append(["bin", "min", s, s2])
             funs.append(["bin", "max", s, s2])
             funs.append(["call", "safediv", [s, s2]])
+            funs.append(["call", "safediv", [s, ["bin", "-", s2, s2]]])       # two arguments, denominator exactly zero: the default result 0
             funs.append(["call", "safediv", [s, ["bin", "-", s2, s2], ["bin", "+", A, ["num", 1.0]]]])
             funs.append(["call", "safediv", [s, s2, ["num", 9.0]]])
             funs.append(["call", "rootn", [s, s2]])
@@ -150,6 +151,23 @@ def asts(tier):
         out.append(["bin", "*", k, ["num", 2.0]])
         out.append(["bin", "-", A, k])
         out.append(["bin", "**", ["bin", "+", k, ["num", 1.0]], ["num", 2.0]])
+    # size ladder: long chains and deep nesting (a loud rejection is fine, a silently wrong value is not)
+    for n in (10, 40, 70, 100, 150):
+        t = A
+        for i in range(n):
+            t = ["bin", "+", t, [B, C, N(), A][i % 4]]
+        out.append(t)
+        out.append(["bin", "*", ["num", 2.0], t])
+    for n in (5, 15, 30, 45, 70):
+        t = A
+        for i in range(n):
+            t = ["bin", "*", [B, C][i % 2], ["bin", "+", [A, N()][i % 2], t]]
+        out.append(t)
+        t = C
+        for i in range(n):
+            t = ["if", ["bin", ">", [A, B][i % 2], [B, C][i % 2]], ["bin", "+", t, ["num", 1.0]], [B, N()][i % 2]] if i % 3 else \
+                ["if", ["bin", "<", [A, B][i % 2], [B, C][i % 2]], [C, N()][i % 2], ["bin", "-", t, ["num", 1.0]]]
+        out.append(t)
     if tier == "thorough":
         # depth 3: (outer, position, middle, position, inner) complete for the arithmetic core
         mids = []
@@ -418,6 +436,9 @@ def _work_misc(arg):
     return check_unsupported(b)
 
 
+TIES = {"a": 3.0, "b": 3.0, "c": 3.0, "n": 3.0}
+
+
 def run(ctx):
     trees = asts(ctx.tier)
     sps = SPELLINGS_Q if ctx.tier == "quick" else SPELLINGS_T
@@ -429,6 +450,24 @@ def run(ctx):
         cases += [(i, t, "bareif") for i, t in enumerate(trees) if xmile.has_bare_if(t)]
         for k in range(0, len(cases), per):
             jobs.append((b, cases[k:k + per]))
+    # ties: every condition form once more under a binding in which all operands are equal (a < b, NOT(a < b), a >= b ... on equal values)
+    def cond_only(t):
+        if not isinstance(t, list):
+            return True
+        if t and t[0] in ("un",) and t[1] not in ("neg", "not"):
+            return False
+        if t and t[0] in ("call", "xround", "xstep"):
+            return False
+        if t and t[0] == "bin" and t[1] in ("/", "%", "**", "min", "max"):
+            return False
+        return all(cond_only(x) for x in t[1:] if isinstance(x, list))
+
+    def has_cond(t):
+        return isinstance(t, list) and ((t and t[0] == "if") or (t and t[0] == "bin" and t[1] in CMP + ["and", "or"]) or (t and t[0] == "un" and t[1] == "not") or
+                                        any(has_cond(x) for x in t[1:] if isinstance(x, list)))
+    tie_cases = [(i, t, sp) for i, t in enumerate(trees) if has_cond(t) and cond_only(t) and len(json.dumps(t)) < 2000 for sp in sps[:1]]
+    for k in range(0, len(tie_cases), per):
+        jobs.append((TIES, tie_cases[k:k + per]))
     res = core.pmap(_work, jobs)
     counts = {"ok": 0, "rejected": 0, "undefined": 0, "VIOL": 0}
     rej = {}
@@ -443,7 +482,10 @@ def run(ctx):
                 kk = str(detail).split(":")[0]
                 rej[kk] = rej.get(kk, 0) + 1
             if st == "VIOL":
-                ctx.violation("C03/value/%s/%s" % (sp, skeleton(trees[i])), {"ast": trees[i], "spelling": sp, "binding": detail["binding"]}, detail)
+                sk = skeleton(trees[i])
+                if len(sk) > 140:
+                    sk = sk[:50] + "...(%d chars)..." % len(sk) + sk[-50:]
+                ctx.violation("C03/value/%s/%s" % (sp, sk), {"ast": trees[i], "spelling": sp, "binding": detail["binding"]}, detail)
     for i in range(0, len(trees), max(1, len(trees) // 6)):
         samples.append({"ast": skeleton(trees[i]), "min": eq_text(trees[i], "min", bs[0]), "full": eq_text(trees[i], "full", bs[0])})
     misc = core.pmap(_work_misc, [("names", bs[0]), ("unsupported", bs[0]), ("modules", bs[0])])
@@ -463,7 +505,7 @@ def run(ctx):
         "asts": len(trees), "spellings": sps, "bindings": len(bs), "outcomes": counts, "rejected_kinds": rej,
         "documents_compiled": len(jobs), "name_cases": n_names, "name_shapes_rejected_loudly": names_rejected, "unsupported_inputs": n_unsup,
         "samples": samples,
-    }, assumptions=["MOD on positive operands only; ROUND/INT/STEP/comparisons away from ties",
+    }, assumptions=["MOD on positive operands only; ROUND/INT/STEP away from ties (comparisons are evaluated on ties too)",
                     "a loud rejection (exception at compile, import or evaluation) is allowed for any equation",
                     "XMILE reference evaluator mc/xmile.py implements XMILE 1.0 precedence: ^ (right assoc) > unary - / NOT > * / MOD > + - > comparisons > AND > OR"])
 
